@@ -92,9 +92,10 @@ fn repeated_same_length(ctx: &Ctx) {
         for round in 0..6u64 {
             let code = image(*len, ctx.seed ^ (round << 32) ^ *len as u64);
             let eep = image((*len).min(65536), !ctx.seed ^ (round << 40) ^ *len as u64);
-            // even rounds: the same object patched in place; odd rounds: a fresh object
+            // rounds 0,1 and 4: the same object patched in place (twice in a row, so that even a
+            // one-entry memory of "the last image" is hit); rounds 2,3,5: a fresh object each
             let fresh;
-            let br: &BuildResult = if round % 2 == 0 {
+            let br: &BuildResult = if round < 2 || round == 4 {
                 shared.code = code.clone();
                 shared.eeprom = eep.clone();
                 &shared
@@ -118,7 +119,7 @@ fn repeated_same_length(ctx: &Ctx) {
                 if !ok {
                     let wname = if which == Which::Code { "code" } else { "eeprom" };
                     ctx.violation(
-                        format!("hex/{}/repeated-same-length/{}", wname, if round % 2 == 0 { "object-patched-in-place" } else { "fresh-object" }),
+                        format!("hex/{}/repeated-same-length/{}", wname, if round < 2 || round == 4 { "object-patched-in-place" } else { "fresh-object" }),
                         format!("write #{} of a {}-byte {} image (same length as the writes before it, other contents) does not decode to that image", round + 1, img.len(), wname),
                         json!({"repeated": true, "writer": wname, "len": len, "round": round}),
                     );
